@@ -61,6 +61,16 @@ let () = run_lines (fun toks ->
      | "lcm" -> sp (Model.zp_lcm p k s (po 0) (po 1))
      | "pow" -> sp (Model.zp_pow p k (po 0) (n_of a.(1)))
      | "powmod" -> sp (Model.zp_powmod p k s (po 0) (n_of a.(1)) (po 2))
+     | "addin" -> sp (Model.zp_addin p (po 0) (po 1))
+     | "isDivisor" -> sb (Model.zp_isDivisor p k s (po 0) (po 1))
+     | "modpowx" -> sp (Model.zp_modpowx p (po 0) (nat_of_int (int_of_string a.(1))))
+     | "div_sp" -> sp (Model.zp_div_sp p (sc 0) (po 1))
+     | "mod_sp" -> sp (Model.zp_mod_sp p (sc 0) (po 1))
+     | "mul_trunc" -> sp (Model.zp_mul_trunc p (po 0) (po 1) (nat_of_int (int_of_string a.(2))) (nat_of_int (int_of_string a.(3))))
+     | "power_compose" -> sp (Model.zp_power_compose p (po 0) (nat_of_int (int_of_string a.(1))))
+     | "interpolate" -> sp (Model.zp_interpolate p (po 0) (po 1))
+     | "crt_toring" -> sp (Model.zp_crt_toring p k (po 0) (po 1))
+     | "crt_torns" -> sp (Model.zp_crt_torns p (po 0) (po 1))
      | "axpy" -> sp (Model.zp_axpy p k (po 0) (po 1) (po 2))
      | "axpy_s" -> sp (Model.zp_axpy_s p (sc 0) (po 1) (po 2))
      | "axpyin" -> sp (Model.zp_axpyin p k (po 0) (po 1) (po 2))
